@@ -197,3 +197,28 @@ func constInt64(k *types.Const) (int64, bool) {
 func itoa(n int) string { return strconv.Itoa(n) }
 
 func ptrTo(t types.Type) types.Type { return types.NewPointer(t) }
+
+func fieldNameOf(x *ssa.FieldAddr) string {
+	t := x.X.Type()
+	if pt, ok := t.Underlying().(*types.Pointer); ok {
+		t = pt.Elem()
+	}
+	if st, ok := t.Underlying().(*types.Struct); ok && x.Field < st.NumFields() {
+		return st.Field(x.Field).Name()
+	}
+	return ""
+}
+
+// derefNamed returns "pkgpath.Name" of a (pointer to) named type, or "".
+func derefNamed(t types.Type) string {
+	if pt, ok := t.Underlying().(*types.Pointer); ok {
+		t = pt.Elem()
+	}
+	if pt, ok := t.(*types.Pointer); ok {
+		t = pt.Elem()
+	}
+	if n, ok := t.(*types.Named); ok && n.Obj().Pkg() != nil {
+		return n.Obj().Pkg().Path() + "." + n.Obj().Name()
+	}
+	return ""
+}
